@@ -113,7 +113,7 @@ func c05(c *Ctx) {
 	c.RunEvalCases()
 
 	// AnyOf with 0..6 mixed arguments, array-valued arguments spread
-	n := c.N(3000, 80000)
+	n := c.N(10000, 120000)
 	pool := []string{"1", "2", "2.0", "10", "1e1", "\"a\"", "\"b\"", "\"2\"", "true", "false", "$.nums", "$.strs", "$.one"}
 	for i := 0; i < n; i++ {
 		k := c.Rng.Intn(7)
